@@ -380,7 +380,11 @@ thread_local! {
 }
 
 pub fn install_quiet_panic_hook() {
-    std::panic::set_hook(Box::new(|info| {
+    let loud = std::env::var("VERIF_LOUD").is_ok();
+    std::panic::set_hook(Box::new(move |info| {
+        if loud {
+            eprintln!("panic: {info}");
+        }
         let msg = if let Some(s) = info.payload().downcast_ref::<&str>() {
             s.to_string()
         } else if let Some(s) = info.payload().downcast_ref::<String>() {
